@@ -141,8 +141,15 @@ static int line_to_instr(struct instr *instr_data, char *filtered_asm_str) {
   }
   // special case for push instruction with immediate
   // (used push imm16 or imm32 when immediate is greater than 0x7f)
-  if (NAME(instr_data->key, push) && instr_data->cons > MAX_SIGNED_8BIT)
+  // (-128..-1 still fit the sign-extended imm8 form)
+  if (NAME(instr_data->key, push) && instr_data->cons > MAX_SIGNED_8BIT &&
+      instr_data->cons < NEG80BIT) {
     instr_data->key++;
+    // a negative immediate is pushed as a sign-extended imm32
+    if (IN_RANGE(instr_data->cons, NEG32BIT + 1, NEG64BIT)) {
+      DO_NOT_PAD(instr_data->cons, instr_data->reduced_imm, MAX_UNSIGNED_32BIT);
+    }
+  }
   return EXIT_SUCCESS;
 }
 
